@@ -1,4 +1,4 @@
-module spike14
+module spike15
 
 go 1.23
 
